@@ -55,6 +55,8 @@ def generate(seed, tier, index):
                              max_depth=2, all_min_max=True)
             specs.append(s)
             break
+    if ndev >= 2 and rng.random() < 0.3:
+        specs[1] = G.clone_as_second_instance(specs[0], "DEV1")  # two instances of one driver class
     # make sure something is writable
     tries = 0
     while not _writable(specs) and tries < 20:
